@@ -1,5 +1,6 @@
 """C04 — every mailbox behaves like its sequential specification (E3 controlled schedules)."""
 ID = "C04"
+WIP = True  # not claimed in MANIFEST until the theorems exist
 LEAN_MODULES = ["GoaktVerif.Model.C04.Unbounded"]
 THEOREMS = []
 INPKG = ["actor/zz_verif_mbox.go"]
